@@ -1,8 +1,2246 @@
-//! C12 — placeholder, replaced by the real check.
-use crate::core::{CaseOut, Run};
-pub fn run(run: &Run) {
-	run.infra("C12 is not built yet");
+//! C12 — std.format and the % operator implement printf-style formatting.
+//!
+//! Two references that must first agree with each other:
+//!  R1  a transcription of the documented `std.format` algorithm of Jsonnet's std.jsonnet (`r1`, below),
+//!  R2  CPython's own `%` operator, reached through the sidecar `/verif/harness/oracle_c12.py` (one process per
+//!      batch of thousands of cases).
+//! A case on which they disagree is discarded and counted.  Outside the part of the mini-language that Jsonnet took
+//! over from Python unchanged (`#o`, `%s` of non-strings, `%%` with width/flags, booleans, object argument without
+//! mapping keys) R1 decides those codes alone, while Python still checks every other code of the same string (see
+//! `Case::for_python`).  Fractions under o/x/X/c, negative, fractional or null `*` arguments and std.toString of
+//! numbers that implementations print differently are discarded.  jrsonnet has to produce the agreed text through
+//! both surface forms (`fmt % v`, `std.format(fmt, v)`), an error where the references report one, never a panic.
+//!
+//! A failing case is attributed to the smallest set of separately describable deviations (QUIRKS, PANICS) under which
+//! the documented algorithm reproduces jrsonnet's answer exactly; such a failure is downgraded to a known finding only
+//! if every id of the set is listed with status "known" for C12 in /verif/known_findings.jsonl (reproducer format of
+//! such an entry: `{"fmt": "...", "arg": <value encoding of V::enc>}`).
+use std::{
+	collections::BTreeMap,
+	io::Write as _,
+	process::{Command, Stdio},
+	sync::{
+		atomic::{AtomicUsize, Ordering},
+		Mutex,
+	},
+	time::Instant,
+};
+
+use serde_json::{json, Value};
+
+use crate::{
+	ast,
+	core::{hash64, CaseOut, Run, Src, Verdict},
+	jr::{self, Opts, Outcome},
+	json::{self, J},
+};
+
+const SIDECAR: &str = "/verif/harness/oracle_c12.py";
+const PYTHON: &str = "/usr/bin/python3";
+
+// ---------------------------------------------------------------------------------------------------------------
+// values
+// ---------------------------------------------------------------------------------------------------------------
+
+#[derive(Clone, Debug, PartialEq)]
+pub enum V {
+	Num(f64),
+	Str(String),
+	Null,
+	Bool(bool),
+	Arr(Vec<V>),
+	Obj(Vec<(String, V)>),
 }
-pub fn replay(_run: &Run, _stage: &str, _tape: Option<&[u16]>, _v: &serde_json::Value) -> Option<CaseOut> {
-	None
+
+fn num_lit(x: f64) -> String {
+	if x.is_sign_negative() {
+		format!("(-{:?})", -x)
+	} else {
+		format!("{x:?}")
+	}
+}
+fn str_lit(s: &str) -> String {
+	ast::string_literal(s, ast::StrStyle::Double, "")
+}
+
+impl V {
+	/// Jsonnet source text of the value
+	pub fn lit(&self) -> String {
+		match self {
+			V::Num(x) => num_lit(*x),
+			V::Str(s) => str_lit(s),
+			V::Null => "null".into(),
+			V::Bool(b) => b.to_string(),
+			V::Arr(a) => format!("[{}]", a.iter().map(|v| v.lit()).collect::<Vec<_>>().join(", ")),
+			V::Obj(f) => {
+				if f.is_empty() {
+					"{}".into()
+				} else {
+					format!("{{ {} }}", f.iter().map(|(k, v)| format!("{}: {}", str_lit(k), v.lit())).collect::<Vec<_>>().join(", "))
+				}
+			}
+		}
+	}
+	/// encoding understood by the sidecar (also used in replay files)
+	pub fn enc(&self) -> Value {
+		match self {
+			V::Num(x) => {
+				if x.fract() == 0.0 && !(*x == 0.0 && x.is_sign_negative()) {
+					// exact decimal expansion of the double (Rust prints floats exactly)
+					json!({ "n": format!("{x:.0}") })
+				} else {
+					json!({ "d": format!("{x:?}") })
+				}
+			}
+			V::Str(s) => json!({ "s": s }),
+			V::Null => Value::Null,
+			V::Bool(b) => Value::Bool(*b),
+			V::Arr(a) => json!({ "a": a.iter().map(|v| v.enc()).collect::<Vec<_>>() }),
+			V::Obj(f) => json!({ "o": f.iter().map(|(k, v)| json!([k, v.enc()])).collect::<Vec<_>>() }),
+		}
+	}
+	pub fn dec(v: &Value) -> Option<V> {
+		Some(match v {
+			Value::Null => V::Null,
+			Value::Bool(b) => V::Bool(*b),
+			Value::Object(m) => {
+				if let Some(n) = m.get("n") {
+					V::Num(n.as_str()?.parse().ok()?)
+				} else if let Some(d) = m.get("d") {
+					V::Num(d.as_str()?.parse().ok()?)
+				} else if let Some(s) = m.get("s") {
+					V::Str(s.as_str()?.to_owned())
+				} else if let Some(a) = m.get("a") {
+					V::Arr(a.as_array()?.iter().map(V::dec).collect::<Option<Vec<_>>>()?)
+				} else if let Some(o) = m.get("o") {
+					let mut f = vec![];
+					for kv in o.as_array()? {
+						f.push((kv.get(0)?.as_str()?.to_owned(), V::dec(kv.get(1)?)?));
+					}
+					V::Obj(f)
+				} else {
+					return None;
+				}
+			}
+			_ => return None,
+		})
+	}
+}
+
+// ---------------------------------------------------------------------------------------------------------------
+// R1: the documented algorithm (std.jsonnet, function `format`)
+// ---------------------------------------------------------------------------------------------------------------
+
+/// why R1 stops without a text
+#[derive(Clone, Debug, PartialEq)]
+pub enum Stop {
+	/// the documented algorithm raises an error (category)
+	Err(&'static str),
+	/// the documented algorithm's answer depends on things this property does not pin down (discard)
+	Unspec(&'static str),
+}
+type R<T> = Result<T, Stop>;
+
+#[derive(Clone, Debug)]
+enum Fw {
+	Num(f64),
+	Star,
+}
+#[derive(Clone, Debug)]
+enum Pr {
+	None,
+	Num(f64),
+	Star,
+}
+#[derive(Clone, Debug)]
+struct PCode {
+	mkey: Option<String>,
+	alt: bool,
+	zero: bool,
+	left: bool,
+	blank: bool,
+	plus: bool,
+	fw: Fw,
+	prec: Pr,
+	/// normalised conversion: d o x e f g c s %
+	ctype: char,
+	caps: bool,
+	/// the letter as written
+	letter: char,
+	/// position of the code in the format string (code points): index of `%`, index after the conversion letter
+	start: usize,
+	end: usize,
+}
+#[derive(Clone, Debug)]
+enum Piece {
+	Lit(String),
+	Code(PCode),
+}
+
+const TRUNC: Stop = Stop::Err("truncated format code");
+
+// Deviation models.  R1 is the documented algorithm; with one of these switches on it reproduces one specific,
+// separately describable deviation of jrsonnet.  They are used only AFTER a case has failed, to say which recorded
+// finding(s) explain the observed answer exactly ("repair-based signature"); they never change an expectation.
+const Q_PAD_BYTES: u32 = 1 << 0;
+const Q_HEX_ZERO: u32 = 1 << 1;
+const Q_I64_SAT: u32 = 1 << 2;
+const Q_LENMODS: u32 = 1 << 3;
+const Q_EMPTY_KEY: u32 = 1 << 4;
+const Q_CHAR_SAT: u32 = 1 << 5;
+const Q_STAR_U16: u32 = 1 << 6;
+const Q_FMA: u32 = 1 << 7;
+const Q_POWI: u32 = 1 << 8;
+const QUIRKS: &[(u32, &str, &str)] = &[
+	(Q_PAD_BYTES, "C12-width-counts-bytes", "field width padding counts UTF-8 bytes instead of code points (`\"%5s\" % \"é\"` gives 3 spaces)"),
+	(Q_HEX_ZERO, "C12-alt-hex-of-zero-loses-prefix", "`%#x` / `%#X` of 0 prints `0` instead of `0x0`, while still reserving room for the prefix"),
+	(Q_I64_SAT, "C12-digits-saturate-at-i64", "integer digits are produced through `as i64`: values (and fraction digit blocks) beyond 2^63 print as 9223372036854775807"),
+	(Q_LENMODS, "C12-several-length-modifiers-accepted", "any run of h/l/L is skipped (`%lld`), the documented parser and Python skip one"),
+	(Q_EMPTY_KEY, "C12-empty-mapping-key-rejected", "`%()s` with a field named \"\" raises 'mapping keys required'"),
+	(Q_CHAR_SAT, "C12-char-of-negative-number", "`%c` of a negative number prints U+0000 (saturating `as u32`) instead of raising"),
+	(Q_STAR_U16, "C12-star-limited-to-u16", "a `*` width or precision above 65535 raises 'number out of bounds'"),
+	(Q_POWI, "C12-powi-instead-of-pow", "render_float takes 10^precision from repeated multiplication (`powi`), which is not the correctly rounded power for precisions above 22: the digit block after the point is garbage (`\"%.255g\" % 10`)"),
+	(Q_FMA, "C12-fused-multiply-add-rounding", "render_float computes |n| * 10^prec + 0.5 with a fused multiply-add, so the last digit differs from the documented two-step computation (`\"%.17f\" % 0.05` ends in 1)"),];
+// Seeded mutants of R1 (plausible implementation mistakes).  After a case has been decided, each mutant is run on it:
+// if its answer differs from the agreed expectation, an implementation with that mistake would have failed this case.
+// The counts are reported and floored, as a standing measurement of the discriminating power of the generated cases.
+const M_ZERO_WITH_LEFT: u32 = 1 << 16;
+const M_BLANK_OVER_PLUS: u32 = 1 << 17;
+const M_HEX_PREFIX_TWICE: u32 = 1 << 18;
+const M_D_PRECISION_IGNORED: u32 = 1 << 19;
+const M_EXPONENT_ONE_DIGIT: u32 = 1 << 20;
+const M_G_THRESHOLD: u32 = 1 << 21;
+const M_RIGHT_TO_LEFT: u32 = 1 << 22;
+const M_NO_TOO_MANY_CHECK: u32 = 1 << 23;
+const M_CHAR_ANY_LENGTH: u32 = 1 << 24;
+const MUTANTS: &[(u32, &str)] = &[
+	(M_ZERO_WITH_LEFT, "zero flag honoured together with left"),
+	(M_BLANK_OVER_PLUS, "blank flag wins over +"),
+	(M_HEX_PREFIX_TWICE, "#x prefix counted twice in the zero padding"),
+	(M_D_PRECISION_IGNORED, "precision ignored for %d"),
+	(M_EXPONENT_ONE_DIGIT, "exponent of %e printed with one digit minimum"),
+	(M_G_THRESHOLD, "%g switches to scientific at exponent > precision instead of >="),
+	(M_RIGHT_TO_LEFT, "values consumed right to left"),
+	(M_NO_TOO_MANY_CHECK, "'too many values' check removed"),
+	(M_CHAR_ANY_LENGTH, "%c accepts strings of any length"),
+	(Q_PAD_BYTES, "width measured in bytes"),
+];
+static KILLS: Mutex<[u64; 10]> = Mutex::new([0; 10]);
+
+thread_local! {
+	static ACTIVE_QUIRKS: std::cell::Cell<u32> = const { std::cell::Cell::new(0) };
+}
+fn quirk(q: u32) -> bool {
+	ACTIVE_QUIRKS.with(|c| c.get() & q != 0)
+}
+
+fn parse_code(s: &[char], mut i: usize) -> R<(usize, PCode)> {
+	// try_parse_mapping_key
+	if i >= s.len() {
+		return Err(TRUNC);
+	}
+	let mut mkey = None;
+	if s[i] == '(' {
+		let mut j = i + 1;
+		let mut v = String::new();
+		loop {
+			if j >= s.len() {
+				return Err(TRUNC);
+			}
+			if s[j] != ')' {
+				v.push(s[j]);
+				j += 1;
+			} else {
+				break;
+			}
+		}
+		mkey = Some(v);
+		i = j + 1;
+	}
+	// try_parse_cflags
+	let (mut alt, mut zero, mut left, mut blank, mut plus) = (false, false, false, false, false);
+	loop {
+		if i >= s.len() {
+			return Err(TRUNC);
+		}
+		match s[i] {
+			'#' => alt = true,
+			'0' => zero = true,
+			'-' => left = true,
+			' ' => blank = true,
+			'+' => plus = true,
+			_ => break,
+		}
+		i += 1;
+	}
+	// try_parse_field_width
+	let field = |mut i: usize| -> R<(usize, Fw)> {
+		if i < s.len() && s[i] == '*' {
+			return Ok((i + 1, Fw::Star));
+		}
+		let mut v = 0.0f64;
+		loop {
+			if i >= s.len() {
+				return Err(TRUNC);
+			}
+			match s[i].to_digit(10) {
+				Some(d) if s[i].is_ascii_digit() => {
+					v = v * 10.0 + d as f64;
+					i += 1;
+				}
+				_ => return Ok((i, Fw::Num(v))),
+			}
+		}
+	};
+	let (ni, fw) = field(i)?;
+	i = ni;
+	// try_parse_precision
+	if i >= s.len() {
+		return Err(TRUNC);
+	}
+	let mut prec = Pr::None;
+	if s[i] == '.' {
+		let (ni, p) = field(i + 1)?;
+		i = ni;
+		prec = match p {
+			Fw::Star => Pr::Star,
+			Fw::Num(n) => Pr::Num(n),
+		};
+	}
+	// try_parse_length_modifier: a single h, l or L is skipped
+	if i >= s.len() {
+		return Err(TRUNC);
+	}
+	if quirk(Q_LENMODS) {
+		while matches!(s[i], 'h' | 'l' | 'L') {
+			i += 1;
+			if i >= s.len() {
+				return Err(TRUNC);
+			}
+		}
+	} else if matches!(s[i], 'h' | 'l' | 'L') {
+		i += 1;
+	}
+	// parse_conv_type
+	if i >= s.len() {
+		return Err(TRUNC);
+	}
+	let c = s[i];
+	let (ctype, caps) = match c {
+		'd' | 'i' | 'u' => ('d', false),
+		'o' => ('o', false),
+		'x' => ('x', false),
+		'X' => ('x', true),
+		'e' => ('e', false),
+		'E' => ('e', true),
+		'f' => ('f', false),
+		'F' => ('f', true),
+		'g' => ('g', false),
+		'G' => ('g', true),
+		'c' => ('c', false),
+		's' => ('s', false),
+		'%' => ('%', false),
+		_ => return Err(Stop::Err("unrecognised conversion type")),
+	};
+	Ok((i + 1, PCode { mkey, alt, zero, left, blank, plus, fw, prec, ctype, caps, letter: c, start: 0, end: i + 1 }))
+}
+
+fn parse_codes(fmt: &str) -> R<Vec<Piece>> {
+	let s: Vec<char> = fmt.chars().collect();
+	let mut out = vec![];
+	let mut cur = String::new();
+	let mut i = 0;
+	while i < s.len() {
+		if s[i] == '%' {
+			let (ni, mut code) = parse_code(&s, i + 1)?;
+			code.start = i;
+			out.push(Piece::Lit(std::mem::take(&mut cur)));
+			out.push(Piece::Code(code));
+			i = ni;
+		} else {
+			cur.push(s[i]);
+			i += 1;
+		}
+	}
+	out.push(Piece::Lit(cur));
+	Ok(out)
+}
+
+/// every arithmetic result of Jsonnet must be finite
+fn ck(x: f64) -> R<f64> {
+	if x.is_finite() {
+		Ok(x)
+	} else {
+		Err(Stop::Err("arithmetic overflow"))
+	}
+}
+fn jmod(a: f64, b: f64) -> R<f64> {
+	if b == 0.0 {
+		return Err(Stop::Err("division by zero"));
+	}
+	ck(a % b)
+}
+fn jdiv(a: f64, b: f64) -> R<f64> {
+	if b == 0.0 {
+		return Err(Stop::Err("division by zero"));
+	}
+	ck(a / b)
+}
+fn clen(s: &str) -> usize {
+	s.chars().count()
+}
+const PAD_LIMIT: f64 = 300_000.0;
+/// `padding(w, s)`: s repeated while the counter is positive
+fn padding(w: f64, ch: char) -> R<String> {
+	if w <= 0.0 {
+		return Ok(String::new());
+	}
+	let n = w.ceil();
+	if n > PAD_LIMIT {
+		return Err(Stop::Unspec("padding beyond the harness limit"));
+	}
+	Ok(std::iter::repeat(ch).take(n as usize).collect())
+}
+fn pad_left(s: &str, w: f64, ch: char) -> R<String> {
+	Ok(padding(w - clen(s) as f64, ch)? + s)
+}
+
+fn sign_str(neg: bool, blank: bool, plus: bool) -> &'static str {
+	if neg {
+		"-"
+	} else if quirk(M_BLANK_OVER_PLUS) && blank {
+		" "
+	} else if plus {
+		"+"
+	} else if blank {
+		" "
+	} else {
+		""
+	}
+}
+
+fn render_int(neg: bool, n: f64, min_chars: f64, min_digits: f64, blank: bool, plus: bool, radix: f64, zero_prefix: &str) -> R<String> {
+	let n_ = n.abs();
+	let dec = if n_.floor() == 0.0 {
+		"0".to_owned()
+	} else {
+		// aux(n) = if n == 0 then zero_prefix else aux(floor(n / radix)) + (n % radix)
+		let mut digits = vec![];
+		if quirk(Q_I64_SAT) {
+			let mut m = n_.floor() as i64; // saturating
+			while m != 0 {
+				digits.push((m % radix as i64) as u8);
+				m /= radix as i64;
+			}
+		} else {
+			let mut m = n_.floor();
+			while m != 0.0 {
+				digits.push(jmod(m, radix)? as u8);
+				m = jdiv(m, radix)?.floor();
+			}
+		}
+		let mut d = zero_prefix.to_owned();
+		for x in digits.iter().rev() {
+			d.push((b'0' + *x) as char);
+		}
+		d
+	};
+	let zp = min_chars - if neg || blank || plus { 1.0 } else { 0.0 };
+	let zp2 = zp.max(min_digits);
+	let dec2 = pad_left(&dec, zp2, '0')?;
+	Ok(format!("{}{}", sign_str(neg, blank, plus), dec2))
+}
+
+fn render_hex(n: f64, min_chars: f64, min_digits: f64, blank: bool, plus: bool, add_zerox: bool, capitals: bool) -> R<String> {
+	let numerals: &[u8] = if capitals { b"0123456789ABCDEF" } else { b"0123456789abcdef" };
+	let n_ = n.abs();
+	let hex = if n_.floor() == 0.0 {
+		"0".to_owned()
+	} else {
+		let mut digits = vec![];
+		if quirk(Q_I64_SAT) {
+			let mut m = n_.floor() as i64; // saturating
+			while m != 0 {
+				digits.push(numerals[(m % 16) as usize] as char);
+				m /= 16;
+			}
+		} else {
+			let mut m = n_.floor();
+			while m != 0.0 {
+				digits.push(numerals[jmod(m, 16.0)? as usize] as char);
+				m = jdiv(m, 16.0)?.floor();
+			}
+		}
+		digits.iter().rev().collect()
+	};
+	let show_prefix = add_zerox && !(quirk(Q_HEX_ZERO) && n_.floor() == 0.0);
+	let neg = n < 0.0;
+	let zp = min_chars - if neg || blank || plus { 1.0 } else { 0.0 } - if add_zerox { if quirk(M_HEX_PREFIX_TWICE) { 4.0 } else { 2.0 } } else { 0.0 };
+	let zp2 = zp.max(min_digits);
+	let hex2 = format!("{}{}", if show_prefix { if capitals { "0X" } else { "0x" } } else { "" }, pad_left(&hex, zp2, '0')?);
+	Ok(format!("{}{}", sign_str(neg, blank, plus), hex2))
+}
+
+fn strip_trailing_zero(s: &str) -> String {
+	s.trim_end_matches('0').to_owned()
+}
+
+fn jsign(x: f64) -> f64 {
+	if x > 0.0 {
+		1.0
+	} else if x < 0.0 {
+		-1.0
+	} else {
+		0.0
+	}
+}
+
+fn render_float_dec(n: f64, zero_pad: f64, blank: bool, plus: bool, ensure_pt: bool, trailing: bool, prec: f64) -> R<String> {
+	let denominator = if quirk(Q_POWI) && prec.fract() == 0.0 && prec.abs() < 100_000.0 { ck(10f64.powi(prec as i32))? } else { ck(10f64.powf(prec))? };
+	let numerator = if quirk(Q_FMA) { ck(n.abs().mul_add(denominator, 0.5))? } else { ck(ck(n.abs() * denominator)? + 0.5)? };
+	let whole = ck(jsign(n) * jdiv(numerator, denominator)?.floor())?;
+	let frac = jmod(numerator.floor(), denominator)?;
+	let dot_size = if prec == 0.0 && !ensure_pt { 0.0 } else { 1.0 };
+	let zp = zero_pad - prec - dot_size;
+	let s = render_int(n < 0.0, whole, zp, 0.0, blank, plus, 10.0, "")?;
+	if prec == 0.0 {
+		Ok(s + if ensure_pt { "." } else { "" })
+	} else if trailing || frac > 0.0 {
+		let frac_str = render_int(false, frac, prec, 0.0, false, false, 10.0, "")?;
+		Ok(format!("{s}.{}", if !trailing { strip_trailing_zero(&frac_str) } else { frac_str }))
+	} else {
+		Ok(s)
+	}
+}
+
+fn exponent_of(n: f64) -> R<f64> {
+	if n == 0.0 {
+		Ok(0.0)
+	} else {
+		Ok(jdiv(ck(n.abs().ln())?, 10f64.ln())?.floor())
+	}
+}
+
+fn render_float_sci(n: f64, zero_pad: f64, blank: bool, plus: bool, ensure_pt: bool, trailing: bool, caps: bool, prec: f64) -> R<String> {
+	let exponent = exponent_of(n)?;
+	let suff = format!("{}{}", if caps { 'E' } else { 'e' }, render_int(exponent < 0.0, exponent.abs(), if quirk(M_EXPONENT_ONE_DIGIT) { 2.0 } else { 3.0 }, 0.0, false, true, 10.0, "")?);
+	let mantissa = if exponent == -324.0 { jdiv(ck(n * 10.0)?, ck(10f64.powf(exponent + 1.0))?)? } else { jdiv(n, ck(10f64.powf(exponent))?)? };
+	let zp2 = zero_pad - clen(&suff) as f64;
+	Ok(render_float_dec(mantissa, zp2, blank, plus, ensure_pt, trailing, prec)? + &suff)
+}
+
+/// std.toString for the values of the domain; numbers only where every Jsonnet implementation prints the same text
+fn to_string(v: &V) -> R<String> {
+	match v {
+		V::Str(s) => Ok(s.clone()),
+		_ => manifest(v),
+	}
+}
+fn manifest(v: &V) -> R<String> {
+	Ok(match v {
+		V::Null => "null".into(),
+		V::Bool(b) => b.to_string(),
+		V::Num(x) => {
+			if x.fract() == 0.0 && x.abs() < 9007199254740992.0 {
+				if *x == 0.0 && x.is_sign_negative() {
+					"-0".into()
+				} else {
+					format!("{x:.0}")
+				}
+			} else if x.abs() < 1e6 && (x * 1024.0).fract() == 0.0 {
+				// small dyadic fractions: shortest and 17-digit renderings coincide
+				format!("{x}")
+			} else {
+				return Err(Stop::Unspec("std.toString of this number is not pinned down by C12"));
+			}
+		}
+		V::Str(s) => {
+			let mut o = String::new();
+			json::write_str(s, &mut o);
+			o
+		}
+		V::Arr(a) => {
+			if a.is_empty() {
+				"[ ]".into()
+			} else {
+				let mut parts = vec![];
+				for x in a {
+					parts.push(manifest(x)?);
+				}
+				format!("[{}]", parts.join(", "))
+			}
+		}
+		V::Obj(f) => {
+			if f.is_empty() {
+				"{ }".into()
+			} else {
+				let mut f: Vec<&(String, V)> = f.iter().collect();
+				f.sort_by(|a, b| a.0.cmp(&b.0));
+				let mut parts = vec![];
+				for (k, x) in f {
+					let mut o = String::new();
+					json::write_str(k, &mut o);
+					parts.push(format!("{o}: {}", manifest(x)?));
+				}
+				format!("{{{}}}", parts.join(", "))
+			}
+		}
+	})
+}
+
+/// lazily evaluated precision argument
+#[derive(Clone, Debug)]
+enum PrecTh {
+	Val(Option<f64>),
+	Dyn(V),
+	Bad(Stop),
+}
+impl PrecTh {
+	/// `prec_or_null`
+	fn force(&self) -> R<Option<f64>> {
+		match self {
+			PrecTh::Val(v) => Ok(*v),
+			PrecTh::Bad(s) => Err(s.clone()),
+			PrecTh::Dyn(V::Null) => Ok(None),
+			PrecTh::Dyn(V::Num(x)) => {
+				if x.fract() != 0.0 || *x < 0.0 {
+					Err(Stop::Unspec("fractional or negative * precision"))
+				} else {
+					Ok(Some(*x))
+				}
+			}
+			PrecTh::Dyn(_) => Err(Stop::Err("precision is not a number")),
+		}
+	}
+}
+
+/// facts collected while R1 walks the codes (classification, applicability of R2)
+#[derive(Default, Clone, Debug)]
+pub struct Meta {
+	pub parsed: bool,
+	/// (letter, flags present, width kind, precision kind)
+	pub codes: Vec<(char, String, &'static str, &'static str)>,
+	/// reason why CPython's operator is not a reference for this case
+	pub r2_na: Option<&'static str>,
+	/// some flag/width/precision changed the rendered text of its value
+	pub matters: bool,
+	pub mode: &'static str,
+	/// a `*` consumed a number beyond 200000 (the sidecar is told not to allocate that)
+	pub star_huge: bool,
+	/// per code, in order: where it stands, what it consumed, what R1 rendered, whether R2 is applicable to it
+	pub spans: Vec<Span>,
+	cur_na: bool,
+}
+#[derive(Clone, Debug)]
+pub struct Span {
+	pub start: usize,
+	pub end: usize,
+	pub text: String,
+	pub na: bool,
+	/// values consumed from a list argument
+	pub vals: Vec<V>,
+}
+impl Meta {
+	fn mark_na(&mut self, why: &'static str) {
+		self.r2_na = Some(why);
+		self.cur_na = true;
+	}
+}
+
+fn need_num(val: &V, meta: &mut Meta) -> R<f64> {
+	match val {
+		V::Num(x) => Ok(*x),
+		other => {
+			if matches!(other, V::Bool(_)) {
+				meta.mark_na("boolean given to a numeric conversion (Python's bool-is-int is not adopted)");
+			}
+			Err(Stop::Err("format required number"))
+		}
+	}
+}
+
+fn format_code(val: &V, code: &PCode, fw: f64, prec: &PrecTh, meta: &mut Meta) -> R<String> {
+	let zp = if code.zero && (!code.left || quirk(M_ZERO_WITH_LEFT)) { fw } else { 0.0 };
+	let fpprec = |p: Option<f64>| p.unwrap_or(6.0);
+	let iprec = |p: Option<f64>| p.unwrap_or(0.0);
+	match code.ctype {
+		's' => {
+			if !matches!(val, V::Str(_)) {
+				meta.mark_na("%s of a non-string (std.toString, not Python's str)");
+			}
+			to_string(val)
+		}
+		'd' => {
+			let v = need_num(val, meta)?;
+			let p = iprec(prec.force()?);
+			render_int(v <= -1.0, v.abs().floor(), zp, if quirk(M_D_PRECISION_IGNORED) { 0.0 } else { p }, code.blank, code.plus, 10.0, "")
+		}
+		'o' => {
+			if code.alt {
+				meta.mark_na("#o (prefix 0 in Jsonnet, 0o in Python 3)");
+			}
+			let v = need_num(val, meta)?;
+			if v.fract() != 0.0 {
+				return Err(Stop::Unspec("fractional number under an integer-radix conversion (o, x, X)"));
+			}
+			render_int(v <= -1.0, v.abs().floor(), zp, iprec(prec.force()?), code.blank, code.plus, 8.0, if code.alt { "0" } else { "" })
+		}
+		'x' => {
+			let v = need_num(val, meta)?;
+			if v.fract() != 0.0 {
+				return Err(Stop::Unspec("fractional number under an integer-radix conversion (o, x, X)"));
+			}
+			render_hex(v.floor(), zp, iprec(prec.force()?), code.blank, code.plus, code.alt, code.caps)
+		}
+		'f' => {
+			let v = need_num(val, meta)?;
+			render_float_dec(v, zp, code.blank, code.plus, code.alt, true, fpprec(prec.force()?))
+		}
+		'e' => {
+			let v = need_num(val, meta)?;
+			render_float_sci(v, zp, code.blank, code.plus, code.alt, true, code.caps, fpprec(prec.force()?))
+		}
+		'g' => {
+			let v = need_num(val, meta)?;
+			let fpprec = fpprec(prec.force()?);
+			let exponent = exponent_of(v)?;
+			if exponent < -4.0 || (if quirk(M_G_THRESHOLD) { exponent > fpprec } else { exponent >= fpprec }) {
+				render_float_sci(v, zp, code.blank, code.plus, code.alt, code.alt, code.caps, fpprec - 1.0)
+			} else {
+				let digits_before_pt = 1f64.max(exponent + 1.0);
+				render_float_dec(v, zp, code.blank, code.plus, code.alt, code.alt, fpprec - digits_before_pt)
+			}
+		}
+		'c' => match val {
+			V::Num(x) => {
+				if x.fract() != 0.0 {
+					return Err(Stop::Unspec("%c of a fractional code point"));
+				}
+				if quirk(Q_CHAR_SAT) && *x < 0.0 {
+					return Ok("\0".to_owned());
+				}
+				if *x < 0.0 || *x > 1114111.0 {
+					return Err(Stop::Err("code point out of range"));
+				}
+				match char::from_u32(*x as u32) {
+					Some(c) => Ok(c.to_string()),
+					None => Err(Stop::Unspec("%c of a surrogate code point")),
+				}
+			}
+			V::Str(s) => {
+				if clen(s) == 1 || (quirk(M_CHAR_ANY_LENGTH) && clen(s) > 1) {
+					Ok(s.clone())
+				} else {
+					Err(Stop::Err("%c expected 1-sized string"))
+				}
+			}
+			other => {
+				if matches!(other, V::Bool(_)) {
+					meta.mark_na("boolean given to %c (Python's bool-is-int is not adopted)");
+				}
+				Err(Stop::Err("%c expected number / string"))
+			}
+		},
+		_ => Err(Stop::Err("unknown code")),
+	}
+}
+
+/// the field width as used by pad_left/pad_right (`w - std.length(str)` must be a number)
+fn force_fw(fw: &Result<V, Stop>) -> R<f64> {
+	match fw {
+		Err(s) => Err(s.clone()),
+		Ok(V::Num(x)) => {
+			if x.fract() != 0.0 {
+				Err(Stop::Unspec("fractional * width"))
+			} else {
+				Ok(*x)
+			}
+		}
+		Ok(_) => Err(Stop::Err("field width is not a number")),
+	}
+}
+
+fn note_code(code: &PCode, meta: &mut Meta) {
+	let mut flags = String::new();
+	for (on, c) in [(code.alt, '#'), (code.zero, '0'), (code.left, '-'), (code.blank, ' '), (code.plus, '+')] {
+		if on {
+			flags.push(c);
+		}
+	}
+	let w = match code.fw {
+		Fw::Star => "star",
+		Fw::Num(x) if x > 0.0 => "fixed",
+		Fw::Num(_) => "none-or-0",
+	};
+	let p = match code.prec {
+		Pr::None => "none",
+		Pr::Star => "star",
+		Pr::Num(_) => "fixed",
+	};
+	meta.codes.push((code.letter, flags, w, p));
+}
+
+/// does the decoration of `code` change the text of `val`?
+fn decoration_matters(val: &V, code: &PCode, fw: f64, prec: &PrecTh, padded: &str) -> bool {
+	let plain = PCode { alt: false, zero: false, left: false, blank: false, plus: false, fw: Fw::Num(0.0), prec: Pr::None, ..code.clone() };
+	let decorated = code.alt || code.zero || code.left || code.blank || code.plus || fw != 0.0 || !matches!(prec, PrecTh::Val(None));
+	if !decorated {
+		return false;
+	}
+	let mut scratch = Meta::default();
+	match format_code(val, &plain, 0.0, &PrecTh::Val(None), &mut scratch) {
+		Ok(t) => t != padded,
+		Err(_) => true,
+	}
+}
+
+/// the padding of the finished field (`pad_left` / `pad_right` with a blank)
+fn final_pad(s: &str, w: f64, left: bool) -> R<String> {
+	let len = if quirk(Q_PAD_BYTES) { s.len() } else { clen(s) };
+	let p = padding(w - len as f64, ' ')?;
+	Ok(if left { format!("{s}{p}") } else { format!("{p}{s}") })
+}
+
+/// bookkeeping for a value consumed by `*`
+fn star_check(r: &Result<V, Stop>, is_prec: bool, meta: &mut Meta) -> R<()> {
+	match r {
+		Ok(V::Num(x)) => {
+			if x.abs() > 200_000.0 {
+				meta.star_huge = true;
+			}
+			// Python reads a negative width as "left-justify" and clamps a negative precision to 0, the documented
+			// algorithm just pads nothing / computes 10^-n; fractions: Python raises, the documented loop rounds up
+			if *x < 0.0 || x.fract() != 0.0 {
+				return Err(Stop::Unspec("negative or fractional * width / precision"));
+			}
+			if quirk(Q_STAR_U16) && *x > 65535.0 {
+				return Err(Stop::Err("number out of bounds"));
+			}
+		}
+		// `prec_or_null != null`: a null precision counts as "no precision" in the documented code, Python raises
+		Ok(V::Null) if is_prec => return Err(Stop::Unspec("null given to a * precision")),
+		_ => {}
+	}
+	Ok(())
+}
+
+/// `%%` with flags, width, precision or key: Python 3 rejects it, the documented algorithm pads it like any field and
+/// the property text lists `%%` among the conversions that honour width: R1 decides alone
+fn decorated_percent(code: &PCode, meta: &mut Meta) {
+	let plain = !(code.alt || code.zero || code.left || code.blank || code.plus) && matches!(code.fw, Fw::Num(w) if w == 0.0) && matches!(code.prec, Pr::None) && code.mkey.is_none();
+	if !plain {
+		meta.mark_na("%% with flags, width, precision or key (rejected by Python 3, padded like any field by the documented algorithm)");
+	}
+}
+
+/// The documented algorithm never reads the precision of %s, %c and %%, so a `*` precision of the wrong type (or a
+/// missing one) goes unnoticed there; Python and common sense raise.  Not pinned down: discard.
+fn unused_precision(code: &PCode, prec: &PrecTh) -> R<()> {
+	if !matches!(code.ctype, 's' | 'c' | '%') {
+		return Ok(());
+	}
+	match prec {
+		PrecTh::Val(_) => Ok(()),
+		PrecTh::Dyn(V::Num(x)) if x.fract() == 0.0 && *x >= 0.0 => Ok(()),
+		_ => Err(Stop::Unspec("a * precision that the documented algorithm never reads is missing or of the wrong type")),
+	}
+}
+
+fn format_codes_arr(codes: &[Piece], arr: &[V], meta: &mut Meta) -> R<String> {
+	let reversed: Vec<V>;
+	let arr = if quirk(M_RIGHT_TO_LEFT) {
+		reversed = arr.iter().rev().cloned().collect();
+		&reversed[..]
+	} else {
+		arr
+	};
+	let mut j = 0usize;
+	let mut v = String::new();
+	for piece in codes {
+		let code = match piece {
+			Piece::Lit(s) => {
+				v.push_str(s);
+				continue;
+			}
+			Piece::Code(c) => c,
+		};
+		note_code(code, meta);
+		meta.cur_na = false;
+		let j_start = j;
+		let fw: Result<V, Stop> = match code.fw {
+			Fw::Star => {
+				let r = arr.get(j).cloned().ok_or(Stop::Err("not enough values"));
+				j += 1;
+				star_check(&r, false, meta)?;
+				r
+			}
+			Fw::Num(n) => Ok(V::Num(n)),
+		};
+		let prec = match code.prec {
+			Pr::Star => {
+				let r = match arr.get(j) {
+					Some(x) => {
+						star_check(&Ok(x.clone()), true, meta)?;
+						PrecTh::Dyn(x.clone())
+					}
+					None => PrecTh::Bad(Stop::Err("not enough values")),
+				};
+				j += 1;
+				r
+			}
+			Pr::Num(n) => PrecTh::Val(Some(n)),
+			Pr::None => PrecTh::Val(None),
+		};
+		let j2 = j;
+		let s = if code.ctype == '%' {
+			decorated_percent(code, meta);
+			"%".to_owned()
+		} else {
+			let val = arr.get(j2).ok_or(Stop::Err("not enough values"))?;
+			// the documented code computes the text first and pads afterwards: an error of the value wins
+			let fw_for_zp = match &fw {
+				Ok(V::Num(x)) => *x,
+				_ => 0.0,
+			};
+			if code.zero && !code.left && !matches!(code.ctype, 's' | 'c') {
+				// zero padding reads the width inside the renderer
+				force_fw(&fw)?;
+			}
+			format_code(val, code, fw_for_zp, &prec, meta)?
+		};
+		let w = force_fw(&fw)?;
+		let padded = final_pad(&s, w, code.left)?;
+		unused_precision(code, &prec)?;
+		if code.ctype != '%' {
+			if let Some(val) = arr.get(j2) {
+				if decoration_matters(val, code, w, &prec, &padded) {
+					meta.matters = true;
+				}
+			}
+			j = j2 + 1;
+		}
+		meta.spans.push(Span { start: code.start, end: code.end, text: padded.clone(), na: meta.cur_na, vals: arr[j_start.min(arr.len())..j.min(arr.len())].to_vec() });
+		v.push_str(&padded);
+	}
+	if j < arr.len() && !quirk(M_NO_TOO_MANY_CHECK) {
+		return Err(Stop::Err("too many values"));
+	}
+	Ok(v)
+}
+
+fn format_codes_obj(codes: &[Piece], obj: &[(String, V)], meta: &mut Meta) -> R<String> {
+	let mut v = String::new();
+	for piece in codes {
+		let code = match piece {
+			Piece::Lit(s) => {
+				v.push_str(s);
+				continue;
+			}
+			Piece::Code(c) => c,
+		};
+		note_code(code, meta);
+		meta.cur_na = false;
+		let fw: Result<V, Stop> = match code.fw {
+			Fw::Star => Err(Stop::Err("cannot use * field width with object")),
+			Fw::Num(n) => Ok(V::Num(n)),
+		};
+		let prec = match code.prec {
+			Pr::Star => PrecTh::Bad(Stop::Err("cannot use * precision with object")),
+			Pr::Num(n) => PrecTh::Val(Some(n)),
+			Pr::None => PrecTh::Val(None),
+		};
+		let mut the_val = None;
+		let s = if code.ctype == '%' {
+			decorated_percent(code, meta);
+			"%".to_owned()
+		} else {
+			let Some(f) = &code.mkey else {
+				meta.mark_na("object argument without mapping key (Python formats the dict itself)");
+				return Err(Stop::Err("mapping keys required"));
+			};
+			if quirk(Q_EMPTY_KEY) && f.is_empty() {
+				return Err(Stop::Err("mapping keys required"));
+			}
+			let val = obj.iter().find(|(k, _)| k == f).map(|(_, x)| x).ok_or(Stop::Err("no such field"))?;
+			the_val = Some(val);
+			let fw_for_zp = match &fw {
+				Ok(V::Num(x)) => *x,
+				_ => 0.0,
+			};
+			if code.zero && !code.left && !matches!(code.ctype, 's' | 'c') {
+				force_fw(&fw)?;
+			}
+			format_code(val, code, fw_for_zp, &prec, meta)?
+		};
+		let w = force_fw(&fw)?;
+		let padded = final_pad(&s, w, code.left)?;
+		unused_precision(code, &prec)?;
+		if let Some(val) = the_val {
+			if decoration_matters(val, code, w, &prec, &padded) {
+				meta.matters = true;
+			}
+		}
+		meta.spans.push(Span { start: code.start, end: code.end, text: padded.clone(), na: meta.cur_na, vals: vec![] });
+		v.push_str(&padded);
+	}
+	Ok(v)
+}
+
+/// R1 under a deviation model (see QUIRKS); used only to attribute failures
+fn r1_with(quirks: u32, fmt: &str, arg: &V) -> R<String> {
+	ACTIVE_QUIRKS.with(|c| c.set(quirks));
+	let r = r1(fmt, arg).0;
+	ACTIVE_QUIRKS.with(|c| c.set(0));
+	r
+}
+
+pub fn r1(fmt: &str, arg: &V) -> (R<String>, Meta) {
+	let mut meta = Meta::default();
+	meta.mode = match arg {
+		V::Arr(_) => "list",
+		V::Obj(_) => "map",
+		_ => "single",
+	};
+	let codes = match parse_codes(fmt) {
+		Ok(c) => c,
+		Err(e) => return (Err(e), meta),
+	};
+	meta.parsed = true;
+	let r = match arg {
+		V::Arr(a) => format_codes_arr(&codes, a, &mut meta),
+		V::Obj(f) => format_codes_obj(&codes, f, &mut meta),
+		other => format_codes_arr(&codes, std::slice::from_ref(other), &mut meta),
+	};
+	(r, meta)
+}
+
+// ---------------------------------------------------------------------------------------------------------------
+// R2: CPython through the sidecar
+// ---------------------------------------------------------------------------------------------------------------
+
+#[derive(Clone, Debug, PartialEq)]
+pub enum Py {
+	Text(String),
+	Exc(String, String),
+	/// the sidecar did not answer (infrastructure problem)
+	Missing(String),
+}
+
+#[derive(Clone, Debug)]
+pub struct Case {
+	pub fmt: String,
+	pub arg: V,
+	/// generator's label (stage-internal kind)
+	pub kind: &'static str,
+}
+impl Case {
+	pub fn text(&self) -> String {
+		format!("{} % {}", str_lit(&self.fmt), self.arg.lit())
+	}
+	pub fn text_std(&self) -> String {
+		format!("std.format({}, {})", str_lit(&self.fmt), self.arg.lit())
+	}
+	/// The question put to Python.  Normally the case itself.  When R1 rendered every code but some of them lie
+	/// outside what Jsonnet shares with Python (`#o`, `%s` of a non-string, decorated `%%`), those codes are replaced
+	/// by `%s` fed with R1's own text for them, so that Python still cross-checks all the other codes, the literal
+	/// text and the order of consumption.
+	fn for_python(&self, r: &R<String>, meta: &Meta) -> (String, V) {
+		if r.is_err() || meta.r2_na.is_none() || !meta.spans.iter().any(|s| s.na) {
+			return (self.fmt.clone(), self.arg.clone());
+		}
+		let chars: Vec<char> = self.fmt.chars().collect();
+		let mut fmt = String::new();
+		let mut pos = 0;
+		let map_mode = matches!(self.arg, V::Obj(_));
+		let mut list = vec![];
+		let mut extra_fields = vec![];
+		for (k, s) in meta.spans.iter().enumerate() {
+			fmt.extend(&chars[pos..s.start]);
+			if s.na {
+				if map_mode {
+					let key = format!("c12~{k}");
+					fmt.push_str(&format!("%({key})s"));
+					extra_fields.push((key, V::Str(s.text.clone())));
+				} else {
+					fmt.push_str("%s");
+					list.push(V::Str(s.text.clone()));
+				}
+			} else {
+				fmt.extend(&chars[s.start..s.end]);
+				list.extend(s.vals.iter().cloned());
+			}
+			pos = s.end;
+		}
+		fmt.extend(&chars[pos..]);
+		let arg = match &self.arg {
+			V::Obj(f) => {
+				let mut f = f.clone();
+				f.extend(extra_fields);
+				V::Obj(f)
+			}
+			_ => V::Arr(list),
+		};
+		(fmt, arg)
+	}
+	fn request(&self) -> String {
+		let (r, meta) = r1(&self.fmt, &self.arg);
+		let (pfmt, parg) = self.for_python(&r, &meta);
+		let (m, v) = match &parg {
+			V::Obj(_) => (1, parg.enc()),
+			V::Arr(a) => (0, Value::Array(a.iter().map(|x| x.enc()).collect())),
+			other => (0, Value::Array(vec![other.enc()])),
+		};
+		// resource guard: Python must not be asked to build gigabytes of padding
+		let risky = match &self.arg {
+			V::Arr(a) => star_gets_huge(&self.fmt, a),
+			V::Obj(_) => false,
+			other => star_gets_huge(&self.fmt, std::slice::from_ref(other)),
+		};
+		let guard = meta.star_huge || (r.is_err() && risky);
+		serde_json::to_string(&json!({ "f": pfmt, "m": m, "v": v, "g": guard })).unwrap()
+	}
+	fn extra(&self) -> Value {
+		json!({ "fmt": self.fmt, "arg": self.arg.enc(), "kind": self.kind })
+	}
+}
+
+/// Would a `*` receive a huge number if the values were consumed the way Python consumes them?  Lenient scan used
+/// only for the resource guard when R1 stopped before it had seen every code (Python may get further than R1).
+fn star_gets_huge(fmt: &str, vals: &[V]) -> bool {
+	let s: Vec<char> = fmt.chars().collect();
+	let huge = |k: usize| matches!(vals.get(k), Some(V::Num(n)) if n.abs() > 200_000.0);
+	let mut idx = 0;
+	let mut i = 0;
+	while i < s.len() {
+		if s[i] != '%' {
+			i += 1;
+			continue;
+		}
+		let mut j = i + 1;
+		if j < s.len() && s[j] == '(' {
+			while j < s.len() && s[j] != ')' {
+				j += 1;
+			}
+			j += 1;
+		}
+		while j < s.len() && "#0- +".contains(s[j]) {
+			j += 1;
+		}
+		if j < s.len() && s[j] == '*' {
+			if huge(idx) {
+				return true;
+			}
+			idx += 1;
+			j += 1;
+		} else {
+			while j < s.len() && s[j].is_ascii_digit() {
+				j += 1;
+			}
+		}
+		if j < s.len() && s[j] == '.' {
+			j += 1;
+			if j < s.len() && s[j] == '*' {
+				if huge(idx) {
+					return true;
+				}
+				idx += 1;
+				j += 1;
+			} else {
+				while j < s.len() && s[j].is_ascii_digit() {
+					j += 1;
+				}
+			}
+		}
+		if j < s.len() && matches!(s[j], 'h' | 'l' | 'L') {
+			j += 1;
+		}
+		if j < s.len() && s[j] != '%' {
+			idx += 1;
+		}
+		i = j + 1;
+	}
+	false
+}
+
+/// one sidecar process answers all cases of the slice
+pub fn ask_python(cases: &[Case]) -> Vec<Py> {
+	let fail = |why: String| -> Vec<Py> { cases.iter().map(|_| Py::Missing(why.clone())).collect() };
+	let mut input = String::new();
+	for c in cases {
+		input.push_str(&c.request());
+		input.push('\n');
+	}
+	let child = Command::new(PYTHON).arg(SIDECAR).stdin(Stdio::piped()).stdout(Stdio::piped()).stderr(Stdio::piped()).spawn();
+	let mut child = match child {
+		Ok(c) => c,
+		Err(e) => return fail(format!("cannot start the sidecar: {e}")),
+	};
+	let mut stdin = child.stdin.take().unwrap();
+	let writer = std::thread::spawn(move || {
+		let _ = stdin.write_all(input.as_bytes());
+	});
+	let out = child.wait_with_output();
+	let _ = writer.join();
+	let out = match out {
+		Ok(o) => o,
+		Err(e) => return fail(format!("sidecar failed: {e}")),
+	};
+	let text = String::from_utf8_lossy(&out.stdout);
+	let lines: Vec<&str> = text.lines().collect();
+	if lines.len() != cases.len() {
+		return fail(format!("sidecar answered {} lines for {} cases: {}", lines.len(), cases.len(), String::from_utf8_lossy(&out.stderr).chars().take(300).collect::<String>()));
+	}
+	lines
+		.iter()
+		.map(|l| match json::parse(l) {
+			Ok(J::Obj(f)) => {
+				let get = |k: &str| f.iter().find(|(n, _)| n == k).map(|(_, v)| v.clone());
+				match (get("t"), get("e")) {
+					(Some(J::Str(t)), _) => Py::Text(t),
+					(_, Some(J::Str(e))) => {
+						if e == "ProtocolError" || e == "MemoryError" || e == "ResourceGuard" {
+							Py::Missing(e)
+						} else {
+							let m = match get("m") {
+								Some(J::Str(m)) => m,
+								_ => String::new(),
+							};
+							Py::Exc(e, m)
+						}
+					}
+					_ => Py::Missing("malformed sidecar line".into()),
+				}
+			}
+			_ => Py::Missing("unparsable sidecar line".into()),
+		})
+		.collect()
+}
+
+// ---------------------------------------------------------------------------------------------------------------
+// the agreed expectation
+// ---------------------------------------------------------------------------------------------------------------
+
+#[derive(Clone, Debug, PartialEq)]
+pub enum Expect {
+	Text(String),
+	Err(&'static str),
+	Discard(String),
+}
+
+fn conv_list(meta: &Meta) -> String {
+	let mut c: Vec<char> = meta.codes.iter().map(|x| x.0).collect();
+	c.sort();
+	c.dedup();
+	c.into_iter().collect()
+}
+
+pub fn agree(r1: &R<String>, meta: &Meta, py: &Py) -> Expect {
+	match r1 {
+		Err(Stop::Unspec(why)) => return Expect::Discard(format!("R1 gives no answer: {why}")),
+		_ => {}
+	}
+	if meta.r2_na.is_some() {
+		// R1 decides the codes outside the shared sub-domain alone; when it rendered everything, Python was asked the
+		// patched question (see Case::for_python) and still has to confirm all the other codes
+		return match (r1, py) {
+			(Ok(t), Py::Text(p)) if t == p => Expect::Text(t.clone()),
+			(Ok(_), Py::Missing(why)) => Expect::Discard(format!("sidecar gave no answer: {why}")),
+			(Ok(_), _) => Expect::Discard(format!("references disagree on the codes they share (conversions {})", conv_list(meta))),
+			(Err(Stop::Err(c)), _) => Expect::Err(c),
+			(Err(Stop::Unspec(_)), _) => unreachable!(),
+		};
+	}
+	match (r1, py) {
+		(_, Py::Missing(why)) => Expect::Discard(format!("sidecar gave no answer: {why}")),
+		(Ok(a), Py::Text(b)) if a == b => Expect::Text(a.clone()),
+		(Err(Stop::Err(c)), Py::Exc(..)) => Expect::Err(c),
+		(Ok(_), Py::Text(_)) => Expect::Discard(format!("references disagree on the text (conversions {})", conv_list(meta))),
+		(Ok(_), Py::Exc(..)) => Expect::Discard(format!("R1 gives text, Python raises (conversions {})", conv_list(meta))),
+		(Err(_), Py::Text(_)) => Expect::Discard(format!("R1 raises, Python gives text (conversions {})", if meta.parsed { conv_list(meta) } else { "unparsed".into() })),
+		(Err(Stop::Unspec(_)), _) => unreachable!(),
+	}
+}
+
+// ---------------------------------------------------------------------------------------------------------------
+// jrsonnet's answers
+// ---------------------------------------------------------------------------------------------------------------
+
+#[derive(Clone, Debug, PartialEq)]
+pub enum Got {
+	Text(String),
+	Err(String, String),
+	Panic(String),
+	/// not a string value / transport problem
+	Other(String),
+}
+impl Got {
+	fn show(&self) -> String {
+		match self {
+			Got::Text(t) => format!("text {}", clip(&format!("{t:?}"), 160)),
+			Got::Err(k, m) => format!("error [{k}] {}", clip(m, 120)),
+			Got::Panic(p) => format!("PANIC {}", clip(p, 200)),
+			Got::Other(o) => format!("unexpected {}", clip(o, 120)),
+		}
+	}
+}
+fn clip(s: &str, n: usize) -> String {
+	if s.chars().count() <= n {
+		s.to_owned()
+	} else {
+		let head: String = s.chars().take(n / 2).collect();
+		let tail: String = s.chars().rev().take(n / 3).collect::<Vec<_>>().into_iter().rev().collect();
+		format!("{head}…({} chars)…{tail}", s.chars().count())
+	}
+}
+
+fn got_of_item(item: &J) -> Got {
+	let J::Arr(r) = item else { return Got::Other(item.to_text()) };
+	match (r.first(), r.get(1), r.get(2)) {
+		(Some(J::Bool(true)), Some(J::Str(t)), _) => Got::Text(t.clone()),
+		(Some(J::Bool(false)), Some(J::Str(k)), Some(J::Str(m))) => Got::Err(k.clone(), m.clone()),
+		_ => Got::Other(item.to_text()),
+	}
+}
+
+fn eval_exprs(exprs: &[String]) -> Result<Vec<Got>, Outcome> {
+	let mut prog = String::from("[\n");
+	for e in exprs {
+		prog.push_str("  verif.try(");
+		prog.push_str(e);
+		prog.push_str("),\n");
+	}
+	prog.push_str("]\n");
+	match jr::eval(&prog, &Opts::default()) {
+		Outcome::Val(t) => match json::parse(&t) {
+			Ok(J::Arr(items)) if items.len() == exprs.len() => Ok(items.iter().map(got_of_item).collect()),
+			_ => Err(Outcome::Err("Harness".into(), "batch output is not a JSON array of the right length".into())),
+		},
+		o => Err(o),
+	}
+}
+
+/// both surface forms of every case; a batch that does not evaluate (panic) is re-asked question by question
+pub fn ask_jrsonnet(cases: &[Case]) -> Vec<(Got, Got)> {
+	let mut exprs = vec![];
+	for c in cases {
+		exprs.push(c.text());
+		exprs.push(c.text_std());
+	}
+	let flat = match eval_exprs(&exprs) {
+		Ok(v) => v,
+		// verif.try does not catch panics: the batch is lost, every question is put again on its own
+		Err(_) => {
+			let mut v = vec![];
+			for e in &exprs {
+				v.push(match eval_exprs(std::slice::from_ref(e)) {
+					Ok(mut g) => g.remove(0),
+					Err(Outcome::Panic(p)) => Got::Panic(p),
+					Err(o) => Got::Other(o.short()),
+				});
+			}
+			v
+		}
+	};
+	flat.chunks(2).map(|p| (p[0].clone(), p[1].clone())).collect()
+}
+
+// ---------------------------------------------------------------------------------------------------------------
+// decision
+// ---------------------------------------------------------------------------------------------------------------
+
+pub struct Decided {
+	pub out: CaseOut,
+	/// failure signature (groups violations), if failed
+	pub sig: Option<String>,
+	/// ids of the findings that together reproduce the observed answer exactly (empty: unexplained)
+	pub ids: Vec<&'static str>,
+}
+
+fn classes_of(case: &Case, meta: &Meta, exp: &Expect) -> Vec<String> {
+	let mut cl = vec![format!("mode:{}", meta.mode), format!("kind:{}", case.kind)];
+	match exp {
+		Expect::Text(_) => cl.push("expect:text".into()),
+		Expect::Err(c) => {
+			cl.push("expect:error".into());
+			cl.push(format!("error:{c}"));
+		}
+		Expect::Discard(_) => {}
+	}
+	if !meta.parsed {
+		cl.push("format:malformed".into());
+	}
+	for (letter, flags, w, p) in &meta.codes {
+		cl.push(format!("conv:{letter}"));
+		if flags.is_empty() {
+			cl.push("flag:none".into());
+		}
+		for f in flags.chars() {
+			cl.push(format!("flag:{f}"));
+			cl.push(format!("conv-flag:{letter}{f}"));
+		}
+		cl.push(format!("width:{w}"));
+		cl.push(format!("precision:{p}"));
+	}
+	if meta.r2_na.is_some() {
+		cl.push("reference:R1-alone".into());
+	} else {
+		cl.push("reference:R1=R2".into());
+	}
+	cl.sort();
+	cl.dedup();
+	cl
+}
+
+/// panic locations inside the formatter that belong to one describable defect each
+const PANICS: &[(&str, &[&str], &str, &str)] = &[
+	("format.rs", &[":153:", ":154:"], "C12-panic-width-digits-overflow-u16", "a width or precision written with digits above 65535 overflows the u16 accumulator of the code parser (panic in debug builds, wrap-around otherwise)"),
+	("format.rs", &[":451:"], "C12-panic-precision-65535", "precision 65535 overflows `dot_size + precision` in render_float"),
+	("format.rs", &[":621:", ":634:", ":629:"], "C12-panic-g-precision-zero", "%g / %G with precision 0 underflows `fpprec - 1` / `fpprec - digits_before_pt`"),
+	("format.rs", &[":314:"], "C12-panic-float-nonfinite", "%f / %e / %g of a number whose scaled value overflows to infinity reaches render_integer with NaN (debug assertion; garbage digits otherwise)"),
+];
+
+/// Which recorded deviations explain the observed answer exactly?  Returns (signature, ids).
+/// A failure is only excused when every id is listed with status "known" for C12 in /verif/known_findings.jsonl.
+fn attribute(case: &Case, meta: &Meta, exp: &Expect, a: &Got, b: &Got) -> (String, Vec<&'static str>) {
+	for g in [a, b] {
+		if let Got::Panic(p) = g {
+			let loc = p.rsplit(" @ ").next().unwrap_or(p);
+			for (file, lines, id, _) in PANICS {
+				if loc.contains(file) && lines.iter().any(|l| loc.contains(l)) {
+					return ((*id).to_owned(), vec![id]);
+				}
+			}
+			return (format!("panic at {loc}"), vec![]);
+		}
+	}
+	if a != b && !matches!((a, b), (Got::Err(..), Got::Err(..))) {
+		return ("surface forms differ".into(), vec![]);
+	}
+	// smallest set of deviation models under which the documented algorithm gives exactly the observed answer
+	let n = QUIRKS.len();
+	let mut masks: Vec<u32> = (1u32..(1 << n)).filter(|m| m.count_ones() <= 4 || *m == (1 << n) - 1).collect();
+	masks.sort_by_key(|m| (m.count_ones(), *m));
+	let ids_of = |bits: u32| -> Vec<&'static str> { QUIRKS.iter().filter(|q| bits & q.0 != 0).map(|q| q.1).collect() };
+	// (for an expected error answered with text) smallest set that makes the documented algorithm stop raising
+	let mut unraised: Option<u32> = None;
+	for mask in masks {
+		let bits: u32 = QUIRKS.iter().enumerate().filter(|(i, _)| mask & (1 << i) != 0).map(|(_, q)| q.0).sum();
+		let r = r1_with(bits, &case.fmt, &case.arg);
+		let same = match (&r, a) {
+			(Ok(t), Got::Text(g)) => t == g,
+			(Err(Stop::Err(_)), Got::Err(..)) => true,
+			_ => false,
+		};
+		if same {
+			let ids = ids_of(bits);
+			return (ids.join(" + "), ids);
+		}
+		// only the two deviations that remove an error qualify; the walk is left to right, so stopping for another
+		// reason than the expected one means the site of the expected error has been passed
+		if let (Expect::Err(c), Got::Text(_), None) = (exp, a, unraised) {
+			if bits & !(Q_LENMODS | Q_CHAR_SAT) == 0 && r != Err(Stop::Err(c)) {
+				unraised = Some(bits);
+			}
+		}
+	}
+	// The references raise, jrsonnet answers with text, and under these deviations the documented algorithm does not
+	// raise either (its text may still differ in another code for reasons of its own, e.g. its logarithm-based
+	// exponent; there is no expected text to compare with).
+	if let Some(bits) = unraised {
+		let ids = ids_of(bits);
+		return (format!("{} (explains the missing error)", ids.join(" + ")), ids);
+	}
+	// the documented parser rejects the string only because of a second length modifier, jrsonnet goes on and formats
+	if matches!(exp, Expect::Err(_)) && !meta.parsed && matches!(a, Got::Text(_)) {
+		ACTIVE_QUIRKS.with(|c| c.set(Q_LENMODS));
+		let lenient = parse_codes(&case.fmt).is_ok();
+		ACTIVE_QUIRKS.with(|c| c.set(0));
+		if lenient {
+			let id = QUIRKS.iter().find(|q| q.0 == Q_LENMODS).unwrap().1;
+			return (format!("{id} (format string only parses with that deviation)"), vec![id]);
+		}
+	}
+	let convs = conv_list(meta);
+	let sig = match (exp, a) {
+		(Expect::Text(_), Got::Err(k, _)) => format!("unexplained: error [{k}] where text is defined (conversions {convs})"),
+		(Expect::Err(c), Got::Text(_)) => format!("unexplained: text where the references raise '{c}' (conversions {})", if meta.parsed { convs } else { "unparsed".into() }),
+		(Expect::Text(w), Got::Text(g)) => {
+			let kind = if w.trim() == g.trim() || w.replace(' ', "") == g.replace(' ', "") {
+				"padding differs"
+			} else if w.len() != g.len() {
+				"different length"
+			} else {
+				"different characters"
+			};
+			format!("unexplained: wrong text, {kind} (conversions {convs})")
+		}
+		_ => format!("unexplained answer (conversions {convs})"),
+	};
+	(sig, vec![])
+}
+
+/// which seeded mutants of R1 would have failed this (passed) case?
+fn count_kills(case: &Case, exp: &Expect) {
+	if case.kind == "replay" {
+		return;
+	}
+	let mut hit = [false; 10];
+	for (k, (bit, _)) in MUTANTS.iter().enumerate() {
+		let r = r1_with(*bit, &case.fmt, &case.arg);
+		hit[k] = match (exp, &r) {
+			(Expect::Text(t), Ok(m)) => t != m,
+			(Expect::Text(_), Err(Stop::Err(_))) => true,
+			(Expect::Err(_), Ok(_)) => true,
+			_ => false,
+		};
+	}
+	if hit.iter().any(|h| *h) {
+		let mut k = KILLS.lock().unwrap();
+		for i in 0..10 {
+			if hit[i] {
+				k[i] += 1;
+			}
+		}
+	}
+}
+
+pub fn decide(case: &Case, py: &Py, got: &(Got, Got)) -> Decided {
+	let (r1res, meta) = r1(&case.fmt, &case.arg);
+	let exp = agree(&r1res, &meta, py);
+	if !matches!(exp, Expect::Discard(_)) {
+		count_kills(case, &exp);
+	}
+	let text = case.text();
+	let (a, b) = got;
+	let classes = classes_of(case, &meta, &exp);
+	let refs = || {
+		format!(
+			"R1 = {}; R2 = {}",
+			match &r1res {
+				Ok(t) => format!("text {}", clip(&format!("{t:?}"), 160)),
+				Err(Stop::Err(c)) => format!("error ({c})"),
+				Err(Stop::Unspec(c)) => format!("no answer ({c})"),
+			},
+			match (&meta.r2_na, py) {
+				(Some(why), Py::Text(t)) if r1res.is_ok() => format!("R1 alone for: {why}; the other codes through Python: text {}", clip(&format!("{t:?}"), 160)),
+				(Some(why), _) => format!("not applicable: {why}"),
+				(_, Py::Text(t)) => format!("text {}", clip(&format!("{t:?}"), 160)),
+				(_, Py::Exc(e, m)) => format!("{e}: {}", clip(m, 80)),
+				(_, Py::Missing(m)) => format!("missing ({m})"),
+			}
+		)
+	};
+	let failed = |why: String| -> Decided {
+		let (sig, ids) = attribute(case, &meta, &exp, a, b);
+		Decided { out: CaseOut::fail(text.clone(), format!("{why}\n  `%` operator: {}\n  std.format:   {}\n  {}", a.show(), b.show(), refs())).classes(classes.clone()), sig: Some(sig), ids }
+	};
+	// a panic is a failure whatever the references say
+	if matches!(a, Got::Panic(_)) || matches!(b, Got::Panic(_)) {
+		return failed("jrsonnet panicked".into());
+	}
+	if matches!(a, Got::Other(_)) || matches!(b, Got::Other(_)) {
+		return failed("jrsonnet produced neither a string nor an error".into());
+	}
+	if a != b {
+		let same_err = matches!((a, b), (Got::Err(..), Got::Err(..)));
+		if !same_err {
+			return failed("the two surface forms give different answers".into());
+		}
+	}
+	match &exp {
+		Expect::Discard(why) => {
+			if std::env::var_os("C12_DEBUG").is_some() {
+				eprintln!("DISCARD {text}  [{why}]  {}  jrsonnet: {}", refs(), a.show());
+			}
+			Decided { out: CaseOut::discard(text, why), sig: None, ids: vec![] }
+		}
+		Expect::Text(want) => match a {
+			Got::Text(g) if g == want => {
+				let nontrivial = meta.matters || meta.codes.len() > 1;
+				Decided { out: CaseOut::pass(text, nontrivial).classes(classes), sig: None, ids: vec![] }
+			}
+			_ => failed(format!("expected the text {}", clip(&format!("{want:?}"), 200))),
+		},
+		Expect::Err(c) => match a {
+			Got::Err(..) => Decided { out: CaseOut::pass(text, true).classes(classes), sig: None, ids: vec![] },
+			_ => failed(format!("expected an error ({c})")),
+		},
+	}
+}
+
+// ---------------------------------------------------------------------------------------------------------------
+// generators
+// ---------------------------------------------------------------------------------------------------------------
+
+const CONVS: &[char] = &['d', 'i', 'u', 'o', 'x', 'X', 'e', 'E', 'f', 'F', 'g', 'G', 'c', 's', '%'];
+const FLAGS: &[char] = &['#', '0', '-', ' ', '+'];
+const WIDTHS: &[&str] = &["", "0", "1", "5", "12", "*"];
+const PRECS: &[&str] = &["", ".", ".0", ".1", ".3", ".10", ".*"];
+
+pub fn numbers() -> Vec<f64> {
+	vec![
+		0.0,
+		1.0,
+		-1.0,
+		-0.0,
+		7.0,
+		8.0,
+		15.0,
+		16.0,
+		255.0,
+		-255.0,
+		0.5,
+		-0.5,
+		1.5,
+		2.5,
+		0.05,
+		0.15,
+		9.995,
+		99.5,
+		1e-5,
+		1e-4,
+		123456.0,
+		1e6,
+		1e15,
+		1e16,
+		9007199254740992.0,
+		1e21,
+		1e100,
+		1e-100,
+		1e308,
+		// a few more that exercise carries and the %g switch
+		-1.5,
+		0.1,
+		-123456.0,
+		3.0,
+		10.0,
+		100.0,
+		0.001,
+		12345.678,
+		-2.5,
+		4294967296.0,
+		999999.5,
+	]
+}
+fn strings() -> Vec<&'static str> {
+	vec!["a", "", "é", "😀", "ab cd", "日本", "x%y"]
+}
+fn s_values() -> Vec<V> {
+	let mut v: Vec<V> = strings().into_iter().map(|s| V::Str(s.into())).collect();
+	v.extend([
+		V::Null,
+		V::Bool(true),
+		V::Bool(false),
+		V::Arr(vec![]),
+		V::Arr(vec![V::Num(1.0), V::Str("a".into())]),
+		V::Obj(vec![]),
+		V::Obj(vec![("a".into(), V::Num(1.0))]),
+		V::Arr(vec![V::Null, V::Arr(vec![V::Bool(true)]), V::Obj(vec![("k".into(), V::Str("é".into()))])]),
+		V::Num(0.0),
+		V::Num(1.0),
+		V::Num(-1.0),
+		V::Num(255.0),
+		V::Num(0.5),
+		V::Num(-2.5),
+		V::Num(123456.0),
+	]);
+	v
+}
+fn c_values() -> Vec<V> {
+	vec![
+		V::Num(65.0),
+		V::Str("a".into()),
+		V::Num(233.0),
+		V::Str("é".into()),
+		V::Num(128512.0),
+		V::Str("😀".into()),
+		V::Num(20013.0),
+		V::Num(48.0),
+		V::Num(1114111.0),
+		V::Str("".into()),
+		V::Str("ab".into()),
+		V::Str("😀😀".into()),
+		V::Num(1114112.0),
+		V::Num(-1.0),
+		V::Num(65.5),
+		V::Null,
+		V::Bool(true),
+		V::Arr(vec![V::Num(65.0)]),
+	]
+}
+fn wrong_for_number() -> Vec<V> {
+	vec![V::Str("a".into()), V::Str("12".into()), V::Null, V::Bool(true), V::Arr(vec![V::Num(1.0)]), V::Obj(vec![("a".into(), V::Num(1.0))]), V::Str("".into())]
+}
+
+fn is_numeric_conv(c: char) -> bool {
+	matches!(c, 'd' | 'i' | 'u' | 'o' | 'x' | 'X' | 'e' | 'E' | 'f' | 'F' | 'g' | 'G')
+}
+
+/// a value suitable for conversion `c` (index 0 = simplest)
+fn value_for(c: char, src: &mut Src) -> V {
+	if is_numeric_conv(c) {
+		if src.chance(1, 14) {
+			return src.pick(&wrong_for_number()).clone();
+		}
+		let nums = numbers();
+		let mut x = *src.pick(&nums);
+		if matches!(c, 'o' | 'x' | 'X') && x.fract() != 0.0 && !src.chance(1, 6) {
+			// mostly integers for the integer radices (fractions are outside the sub-domain shared with Python)
+			x = x.trunc() + if src.chance(1, 2) { 17.0 } else { 0.0 };
+		}
+		V::Num(x)
+	} else if c == 'c' {
+		src.pick(&c_values()).clone()
+	} else {
+		src.pick(&s_values()).clone()
+	}
+}
+
+fn pick_str<'b>(src: &mut Src, items: &'b [&'b str]) -> &'b str {
+	items[src.below(items.len())]
+}
+
+fn star_value(src: &mut Src, precision: bool) -> V {
+	match src.weighted(&[150, 3, 3, 4, 3]) {
+		0 => V::Num(*src.pick(if precision { &[0.0, 1.0, 3.0, 10.0, 2.0, 6.0] } else { &[0.0, 1.0, 5.0, 12.0, 3.0, 8.0] })),
+		1 => V::Num(-5.0),
+		2 => V::Num(2.5),
+		3 => V::Str("a".into()),
+		_ => V::Null,
+	}
+}
+
+/// deterministic tape for case `i` of a stage (all choices of a case are read from it through `Src`)
+fn tape(seed: u64, stage: &str, i: u64, len: usize) -> Vec<u16> {
+	let mut s = hash64(&format!("{seed}|C12|{stage}|{i}"));
+	let mut out = Vec::with_capacity(len);
+	while out.len() < len {
+		// splitmix64
+		s = s.wrapping_add(0x9e3779b97f4a7c15);
+		let mut z = s;
+		z = (z ^ (z >> 30)).wrapping_mul(0xbf58476d1ce4e5b9);
+		z = (z ^ (z >> 27)).wrapping_mul(0x94d049bb133111eb);
+		z ^= z >> 31;
+		for k in 0..4 {
+			out.push((z >> (16 * k)) as u16);
+		}
+	}
+	out.truncate(len);
+	out
+}
+
+/// the full cross product of single codes: conversion x flag subset x width x precision
+fn grid_case(idx: u64, rep: u64, seed: u64) -> Case {
+	let mut i = idx;
+	let conv = CONVS[(i % CONVS.len() as u64) as usize];
+	i /= CONVS.len() as u64;
+	let mask = (i % 32) as usize;
+	i /= 32;
+	let w = WIDTHS[(i % WIDTHS.len() as u64) as usize];
+	i /= WIDTHS.len() as u64;
+	let p = PRECS[(i % PRECS.len() as u64) as usize];
+	let t = tape(seed, "grid", idx * 1000 + rep, 12);
+	let mut src = Src::new(&t);
+	let mut fmt = String::from("%");
+	for (k, f) in FLAGS.iter().enumerate() {
+		if mask & (1 << k) != 0 {
+			fmt.push(*f);
+		}
+	}
+	fmt.push_str(w);
+	fmt.push_str(p);
+	fmt.push(conv);
+	let mut vals = vec![];
+	if w == "*" {
+		vals.push(star_value(&mut src, false));
+	}
+	if p == ".*" {
+		vals.push(star_value(&mut src, true));
+	}
+	if conv != '%' {
+		vals.push(value_for(conv, &mut src));
+	}
+	Case { fmt, arg: V::Arr(vals), kind: "grid" }
+}
+fn grid_size() -> u64 {
+	(CONVS.len() * 32 * WIDTHS.len() * PRECS.len()) as u64
+}
+
+const DECOR: &[&str] = &["", "5", "-5", "05", "+", " ", "#", ".0", ".1", ".3", "12.3", "+.10", "#.0", "-12.1", "0+12.3", " 05.1", "#012", "+-5.3", ".", "#+.3"];
+
+/// every number of the domain under every numeric conversion and a fixed set of decorations
+fn values_cases() -> Vec<Case> {
+	let mut out = vec![];
+	for conv in CONVS.iter().filter(|c| is_numeric_conv(**c)) {
+		for x in numbers() {
+			for (k, d) in DECOR.iter().enumerate() {
+				// fractions under o, x, X are outside what the two references share: two probes each are enough
+				if matches!(conv, 'o' | 'x' | 'X') && x.fract() != 0.0 && k >= 2 {
+					continue;
+				}
+				out.push(Case { fmt: format!("%{d}{conv}"), arg: V::Arr(vec![V::Num(x)]), kind: "values" });
+			}
+		}
+	}
+	for v in s_values() {
+		for d in ["", "5", "-5", "05", "12", "-12", ".1", "+", "#", " "] {
+			out.push(Case { fmt: format!("%{d}s"), arg: V::Arr(vec![v.clone()]), kind: "values" });
+			// a non-array value is wrapped
+			if !matches!(v, V::Arr(_) | V::Obj(_)) {
+				out.push(Case { fmt: format!("%{d}s"), arg: v.clone(), kind: "values" });
+			}
+		}
+	}
+	for v in c_values() {
+		for d in ["", "5", "-5", "05", "12", ".1", "+", "#"] {
+			out.push(Case { fmt: format!("%{d}c"), arg: V::Arr(vec![v.clone()]), kind: "values" });
+		}
+	}
+	out
+}
+
+const LITERALS: &[&str] = &["", "x", " ", "%%", "é=", "😀", "a b", "100%% ", "\n", "(", ")", "日本語", "%%%%", "-", "0", "*", ".", "l", "\"q\"", "\\"];
+const KEYS: &[&str] = &["a", "b", "k", "a.b", "é", "key with space", "0", ""];
+const MALFORMED: &[&str] = &["%", "%(", "%(k", "%5", "%.", "%l", "%z", "%(k)", "%-", "%5.", "%.3", "%*", "%#0- +", "%(k)5", "%ll", "%h", "%.*", "%(", "%5.3l", "% "];
+// (`r` and `a` are conversions of Python, not of Jsonnet: the references would disagree)
+const UNKNOWN_CONVS: &[char] = &['z', 'b', 'n', 'p', 'q', 't', 'v', 'w', 'y', 'A', 'C', 'D', 'H', 'I', 'S', '!', '@', '$', '&', 'é', ')', 'j', 'k', 'm'];
+const LENMODS: &[&str] = &["", "h", "l", "L", "ll", "hh", "lL"];
+
+/// one random code; returns the text of the code and pushes the values it consumes
+fn random_code(src: &mut Src, key: Option<&str>, vals: &mut Vec<V>) -> (String, char) {
+	let conv = *src.pick(CONVS);
+	let mut s = String::from("%");
+	if let Some(k) = key {
+		s.push('(');
+		s.push_str(k);
+		s.push(')');
+	}
+	let nflags = src.weighted(&[30, 30, 20, 10, 5, 5]);
+	for _ in 0..nflags {
+		s.push(*src.pick(FLAGS));
+	}
+	let w = match src.weighted(&[40, 40, 8, 6]) {
+		0 => String::new(),
+		1 => src.pick(&["5", "1", "0", "12", "3", "8", "20", "007"]).to_string(),
+		2 => "*".to_owned(),
+		_ => src.range(2, 40).to_string(),
+	};
+	if w == "*" {
+		vals.push(star_value(src, false));
+	}
+	s.push_str(&w);
+	let p = match src.weighted(&[45, 35, 8, 6]) {
+		0 => String::new(),
+		1 => src.pick(&[".3", ".0", ".1", ".", ".10", ".2", ".6", ".17"]).to_string(),
+		2 => ".*".to_owned(),
+		_ => format!(".{}", src.range(0, 25)),
+	};
+	if p == ".*" {
+		vals.push(star_value(src, true));
+	}
+	s.push_str(&p);
+	s.push_str(LENMODS[src.weighted(&[70, 8, 8, 8, 3, 2, 1])]);
+	s.push(conv);
+	if conv != '%' {
+		vals.push(value_for(conv, src));
+	}
+	(s, conv)
+}
+
+fn mix_case(i: u64, seed: u64) -> Case {
+	let t = tape(seed, "mix", i, 96);
+	let mut src = Src::new(&t);
+	match src.weighted(&[50, 12, 22, 12, 4]) {
+		// list argument, 1..4 codes with literal text around them, sometimes the wrong number of values
+		0 => {
+			let n = 1 + src.weighted(&[40, 35, 20, 5]);
+			let mut fmt = String::new();
+			let mut vals = vec![];
+			for _ in 0..n {
+				fmt.push_str(pick_str(&mut src, LITERALS));
+				let (c, _) = random_code(&mut src, None, &mut vals);
+				fmt.push_str(&c);
+			}
+			fmt.push_str(pick_str(&mut src, LITERALS));
+			let kind = match src.weighted(&[76, 8, 8, 8]) {
+				0 => "mix",
+				1 => {
+					vals.pop();
+					"arity-short"
+				}
+				2 => {
+					let extra = value_for(*src.pick(CONVS), &mut src);
+					vals.push(extra);
+					"arity-long"
+				}
+				_ => {
+					// literal-only tail or a reversed list: consumption order matters
+					vals.reverse();
+					"order"
+				}
+			};
+			Case { fmt, arg: V::Arr(vals), kind }
+		}
+		// a single non-array value is wrapped
+		1 => {
+			let mut vals = vec![];
+			let mut fmt = src.pick(LITERALS).to_string();
+			let (c, _) = random_code(&mut src, None, &mut vals);
+			fmt.push_str(&c);
+			fmt.push_str(pick_str(&mut src, LITERALS));
+			let arg = match vals.len() {
+				1 if !matches!(vals[0], V::Arr(_)) => vals.remove(0),
+				0 => V::Str("unused".into()),
+				_ => V::Arr(vals),
+			};
+			Case { fmt, arg, kind: "single" }
+		}
+		// object argument
+		2 => {
+			let n = 1 + src.weighted(&[45, 35, 20]);
+			let mut fmt = String::new();
+			let mut fields: Vec<(String, V)> = vec![];
+			let mut kind = "map";
+			for _ in 0..n {
+				fmt.push_str(pick_str(&mut src, LITERALS));
+				let key = *src.pick(KEYS);
+				let mut vals = vec![];
+				let with_key = !src.chance(1, 12);
+				let (c, _) = random_code(&mut src, if with_key { Some(key) } else { None }, &mut vals);
+				if !with_key {
+					kind = "map-no-key";
+				}
+				fmt.push_str(&c);
+				// `*` values cannot be supplied in mapping mode (error expected); the last pushed value is the operand
+				if let Some(v) = vals.pop() {
+					if src.chance(1, 10) {
+						kind = "map-missing-key";
+					} else if !fields.iter().any(|(k, _)| k == key) {
+						fields.push((key.to_owned(), v));
+					}
+				}
+			}
+			fmt.push_str(pick_str(&mut src, LITERALS));
+			if src.chance(1, 3) {
+				fields.push(("unused".into(), V::Num(1.0)));
+			}
+			Case { fmt, arg: V::Obj(fields), kind }
+		}
+		// malformed and truncated format strings, unknown conversions
+		3 => {
+			let mut vals = vec![];
+			let mut fmt = src.pick(LITERALS).to_string();
+			if src.chance(1, 2) {
+				let (c, _) = random_code(&mut src, None, &mut vals);
+				fmt.push_str(&c);
+			}
+			let kind;
+			if src.chance(1, 2) {
+				fmt.push_str(pick_str(&mut src, MALFORMED));
+				kind = "malformed-truncated";
+				if src.chance(1, 3) {
+					// text after the fragment turns most of them into another code
+					fmt.push_str(pick_str(&mut src, &[" ", "x", "d", "%d", ")s"]));
+					vals.push(V::Num(1.0));
+				}
+			} else {
+				let u = *src.pick(UNKNOWN_CONVS);
+				let mut scratch = vec![];
+				let (c, _) = random_code(&mut src, None, &mut scratch);
+				let mut c: Vec<char> = c.chars().collect();
+				c.pop();
+				c.push(u);
+				fmt.extend(c);
+				vals.extend(scratch);
+				if vals.is_empty() {
+					vals.push(V::Num(1.0));
+				}
+				kind = "malformed-unknown-conversion";
+			}
+			if src.chance(1, 4) {
+				return Case { fmt, arg: V::Obj(vec![("k".into(), V::Num(1.0))]), kind };
+			}
+			Case { fmt, arg: V::Arr(vals), kind }
+		}
+		// literal text only
+		_ => {
+			let mut fmt = String::new();
+			for _ in 0..src.range(0, 4) {
+				fmt.push_str(pick_str(&mut src, LITERALS));
+			}
+			let arg = match src.weighted(&[50, 25, 25]) {
+				0 => V::Arr(vec![]),
+				1 => V::Arr(vec![V::Num(1.0)]),
+				_ => V::Obj(vec![("a".into(), V::Num(1.0))]),
+			};
+			Case { fmt, arg, kind: "literal-only" }
+		}
+	}
+}
+
+const BIG: &[u32] = &[255, 256, 1000, 65535, 65536, 70000];
+fn large_cases(n: u64, seed: u64) -> Vec<Case> {
+	let mut out = vec![];
+	for i in 0..n {
+		let t = tape(seed, "large", i, 16);
+		let mut src = Src::new(&t);
+		let big = *src.pick(BIG);
+		let conv = *src.pick(&['d', 's', 'x', 'f', 'e', 'g', 'c', 'o', '%', 'i']);
+		let flag = *src.pick(&["", "-", "0", "+", "#", "0-"]);
+		let mut vals = vec![];
+		let spec = match src.weighted(&[40, 25, 15, 10, 10]) {
+			0 => format!("{big}"),
+			1 => format!(".{big}"),
+			2 => {
+				vals.push(V::Num(big as f64));
+				"*".to_owned()
+			}
+			3 => {
+				vals.push(V::Num(big as f64));
+				".*".to_owned()
+			}
+			_ => format!("{big}.{}", src.pick(BIG)),
+		};
+		if conv != '%' {
+			vals.push(match conv {
+				's' => V::Str(src.pick(&["a", "é", ""]).to_string()),
+				'c' => V::Num(233.0),
+				_ => V::Num(*src.pick(&[1.0, -1.0, 255.0, 1.5, 0.0, 1e15])),
+			});
+		}
+		out.push(Case { fmt: format!("%{flag}{spec}{conv}"), arg: V::Arr(vals), kind: "large" });
+	}
+	out
+}
+
+// ---------------------------------------------------------------------------------------------------------------
+// driver
+// ---------------------------------------------------------------------------------------------------------------
+
+struct Failure {
+	size: usize,
+	text: String,
+	why: String,
+	extra: Value,
+}
+
+/// fixed regression seeds: one reproducer per failure family found while building this check
+fn seeds() -> Vec<Case> {
+	let l = |fmt: &str, vals: Vec<V>| Case { fmt: fmt.to_owned(), arg: V::Arr(vals), kind: "seed" };
+	vec![
+		l("%5s", vec![V::Str("é".into())]),
+		l("%-5s|", vec![V::Str("😀".into())]),
+		l("%5c", vec![V::Num(233.0)]),
+		l("%.0g", vec![V::Num(1.5)]),
+		l("%99999d", vec![V::Num(1.0)]),
+		l("%70000s", vec![V::Str("a".into())]),
+		l("%*d", vec![V::Num(70000.0), V::Num(1.0)]),
+		l("%d", vec![V::Num(1e21)]),
+		l("%x", vec![V::Num(1e21)]),
+		l("%#x", vec![V::Num(0.0)]),
+		l("%#X", vec![V::Num(0.0)]),
+		l("%lld", vec![V::Num(1.0)]),
+		l("%#o", vec![V::Num(8.0)]),
+		l("%#5.4o", vec![V::Num(8.0)]),
+		l("%c", vec![V::Str("ab".into())]),
+		l("%c", vec![V::Num(-1.0)]),
+		l("%.17f", vec![V::Num(0.05)]),
+		l("%f", vec![V::Num(1e308)]),
+		l("%.255g", vec![V::Num(10.0)]),
+		l("%.22e", vec![V::Num(1.5)]),
+		l("%.65535f", vec![V::Num(1.0)]),
+		l("%5%|%-3%|", vec![]),
+		l("%*%", vec![V::Num(3.0)]),
+		l("%-5d|%05d|%-05d|% d|%+ d", vec![V::Num(-3.0), V::Num(-3.0), V::Num(-3.0), V::Num(3.0), V::Num(3.0)]),
+		l("%#x %#X %#o %x", vec![V::Num(255.0), V::Num(255.0), V::Num(8.0), V::Num(-255.0)]),
+		l("%.3g|%.2g|%g|%g", vec![V::Num(100.0), V::Num(100.0), V::Num(0.001), V::Num(1e-5)]),
+		l("%d %d", vec![V::Num(1.0)]),
+		l("%d", vec![V::Num(1.0), V::Num(2.0)]),
+		l("%5.3d|%-+5d|% 05d", vec![V::Num(7.0), V::Num(7.0), V::Num(7.0)]),
+		l("%e|%.0e|%#.0e|%G", vec![V::Num(123456.0), V::Num(1.5), V::Num(1.0), V::Num(1e-5)]),
+		Case { fmt: "%()s".into(), arg: V::Obj(vec![("".into(), V::Num(1.0))]), kind: "seed" },
+		Case { fmt: "%(a)s %(b)05.1f %%".into(), arg: V::Obj(vec![("a".into(), V::Str("é".into())), ("b".into(), V::Num(2.25))]), kind: "seed" },
+		Case { fmt: "%s".into(), arg: V::Obj(vec![("a".into(), V::Num(1.0))]), kind: "seed" },
+	]
+}
+
+static KNOWN_SEEN: Mutex<std::collections::BTreeSet<&'static str>> = Mutex::new(std::collections::BTreeSet::new());
+
+/// a failure whose deviations are all recorded as known findings of C12 is downgraded to Verdict::Known
+fn apply_known(run: &Run, d: &mut Decided) {
+	if d.sig.is_some() && !d.ids.is_empty() && d.ids.iter().all(|id| run.is_known(id)) {
+		d.out.verdict = Verdict::Known(d.ids[0].to_owned());
+		let mut seen = KNOWN_SEEN.lock().unwrap();
+		for id in &d.ids {
+			seen.insert(id);
+		}
+		d.sig = None;
+	}
+}
+
+fn run_stage(run: &Run, stage: &str, cases: Vec<Case>, batch: usize) {
+	let t0 = Instant::now();
+	// R2: one sidecar process per 100 000 cases
+	let mut py: Vec<Py> = Vec::with_capacity(cases.len());
+	let mut sidecar_runs = 0;
+	for chunk in cases.chunks(100_000) {
+		py.extend(ask_python(chunk));
+		sidecar_runs += 1;
+	}
+	if let Some(Py::Missing(why)) = py.iter().find(|p| matches!(p, Py::Missing(w) if w != "MemoryError" && w != "ResourceGuard")) {
+		run.infra(format!("stage {stage}: sidecar problem: {why}"));
+	}
+	let t_py = t0.elapsed().as_secs_f64();
+	let failures: Mutex<BTreeMap<String, (u64, Vec<Failure>)>> = Mutex::new(BTreeMap::new());
+	let next = AtomicUsize::new(0);
+	let nbatches = cases.len().div_ceil(batch);
+	std::thread::scope(|scope| {
+		for _ in 0..run.threads.max(1) {
+			let (cases, py, failures, next) = (&cases, &py, &failures, &next);
+			std::thread::Builder::new()
+				.stack_size(256 << 20)
+				.spawn_scoped(scope, move || loop {
+					let b = next.fetch_add(1, Ordering::SeqCst);
+					if b >= nbatches {
+						break;
+					}
+					let lo = b * batch;
+					let hi = (lo + batch).min(cases.len());
+					let got = ask_jrsonnet(&cases[lo..hi]);
+					for k in lo..hi {
+						let mut d = decide(&cases[k], &py[k], &got[k - lo]);
+						apply_known(run, &mut d);
+						if let (Some(sig), Verdict::Fail(why)) = (d.sig.take(), &d.out.verdict) {
+							let mut f = failures.lock().unwrap();
+							let entry = f.entry(sig).or_default();
+							entry.0 += 1;
+							entry.1.push(Failure { size: cases[k].fmt.len() + cases[k].arg.lit().len(), text: d.out.text.clone(), why: why.clone(), extra: cases[k].extra() });
+							if entry.1.len() > 64 {
+								entry.1.sort_by(|a, b| a.size.cmp(&b.size).then(a.text.cmp(&b.text)));
+								entry.1.truncate(8);
+							}
+						}
+						run.record(stage, &d.out);
+					}
+				})
+				.unwrap();
+		}
+	});
+	let failures = failures.into_inner().unwrap();
+	let mut families = serde_json::Map::new();
+	for (sig, (count, mut list)) in failures {
+		list.sort_by(|a, b| a.size.cmp(&b.size).then(a.text.cmp(&b.text)));
+		families.insert(sig.clone(), json!(count));
+		// the two smallest cases of every failure family become replay files
+		for f in list.iter().take(2) {
+			run.add_violation(stage, &f.text, &format!("[{sig}] ({count} cases of this family in stage {stage}) {}", f.why), None, f.extra.clone());
+		}
+	}
+	run.stage_info(json!({"stage": stage, "kind": "generated-batch", "cases": cases.len(), "sidecar_runs": sidecar_runs,
+		"failing_cases_by_family": families, "sidecar_s": t_py, "wall_s": t0.elapsed().as_secs_f64()}));
+}
+
+pub fn run(run: &Run) {
+	run.set_rule("a decided case has a format code with a flag, width or precision that changes the text of its value (the same conversion without decoration renders differently), or several codes, or is an error case (arity, type, malformed); codes come from the full cross product conversion x flag subset x width {none,0,1,5,12,*} x precision {none,.,.0,.1,.3,.10,.*}, every number of the value domain meets every numeric conversion under 20 decorations, random multi-code strings with literal text (non-ASCII, %%), object arguments, wrong arity, wrong types, truncated codes, unknown conversions, widths/precisions up to 70000; expected answer = agreement of the documented std.format algorithm (own transcription) with CPython's % operator, disagreement => discarded");
+	run.assume("CPython's % operator (/usr/bin/python3) is the second reference on the part of the mini-language that Jsonnet took over unchanged; the transcription of std.jsonnet's format (R1) alone decides #o, %s of non-strings, booleans, decorated %% and object arguments without mapping keys");
+	run.assume("std.toString of containers, null, booleans, strings and small dyadic numbers is as documented ([1, \"a\"], {\"a\": 1}, [ ], { }); other numbers under %s are discarded");
+	let quick = run.tier == crate::core::Tier::Quick;
+	// stage 0: regression seeds
+	run_stage(run, "seeds", seeds(), 1);
+	// stage 1: the cross product of single codes
+	let reps: u64 = run.tier.pick(1, 20);
+	let mut cases = vec![];
+	for rep in 0..reps {
+		for i in 0..grid_size() {
+			cases.push(grid_case(i, rep, run.seed));
+		}
+	}
+	run_stage(run, "grid", cases, 120);
+	// stage 2: value domain x numeric conversions x decorations
+	run_stage(run, "values", values_cases(), 120);
+	// stage 3: random compositions
+	let n: u64 = run.tier.pick(12_000, 480_000);
+	let cases: Vec<Case> = (0..n).map(|i| mix_case(i, run.seed)).collect();
+	run_stage(run, "mix", cases, 120);
+	// stage 4: large widths and precisions
+	run_stage(run, "large", large_cases(run.tier.pick(160, 480), run.seed), 4);
+
+	// discard rate and floors
+	let (evals, discards, by_reason) = {
+		let st = run.stats.lock().unwrap();
+		let d: u64 = st.discarded.values().sum();
+		let mut reasons: Vec<(String, u64)> = st.discarded.iter().map(|(k, v)| (k.clone(), *v)).collect();
+		reasons.sort_by(|a, b| b.1.cmp(&a.1));
+		(st.evaluations, d, reasons)
+	};
+	let rate = discards as f64 / evals.max(1) as f64;
+	run.note(format!("discarded {discards} of {evals} cases ({:.1} %): references disagree or R1 gives no answer; top reasons: {}", rate * 100.0, by_reason.iter().take(6).map(|(k, v)| format!("{k} = {v}")).collect::<Vec<_>>().join("; ")));
+	if rate > 0.25 {
+		run.infra(format!("discard rate {:.1} % exceeds 25 %", rate * 100.0));
+	}
+	let floor = if quick { 200 } else { 4000 };
+	for c in CONVS {
+		run.require_class(&format!("conv:{c}"), floor);
+	}
+	for f in FLAGS {
+		run.require_class(&format!("flag:{f}"), floor);
+	}
+	for c in CONVS.iter().filter(|c| **c != '%') {
+		for f in FLAGS {
+			run.require_class(&format!("conv-flag:{c}{f}"), if quick { 50 } else { 1000 });
+		}
+	}
+	for k in ["expect:error", "expect:text", "mode:map", "mode:single", "format:malformed", "error:too many values", "error:not enough values", "error:truncated format code", "error:unrecognised conversion type", "error:format required number", "error:no such field", "width:star", "precision:star", "reference:R1-alone"] {
+		run.require_class(k, if quick { 100 } else { 2000 });
+	}
+	// discriminating power: decided cases on which each seeded mutant of R1 answers differently from the expectation
+	let kills = *KILLS.lock().unwrap();
+	run.note(format!("decided cases that would fail an implementation with a seeded mistake: {}", MUTANTS.iter().zip(kills.iter()).map(|((_, what), n)| format!("{what} = {n}")).collect::<Vec<_>>().join("; ")));
+	for ((_, what), n) in MUTANTS.iter().zip(kills.iter()) {
+		if *n < if quick { 20 } else { 400 } {
+			run.infra(format!("generator degenerate: only {n} decided cases distinguish the mistake '{what}'"));
+		}
+	}
+	// recorded findings: run each one's own reproducer (`replay` = JSON {"fmt": .., "arg": <encoded value>}, the same
+	// shape as the "extra" of a replay file); the ones met during the search but without reproducer are reported too
+	let reproduced: Mutex<Vec<String>> = Mutex::new(vec![]);
+	run.reproduce_known(|k| {
+		let parsed = serde_json::from_str::<Value>(&k.replay).ok().and_then(|v| Some(Case { fmt: v["fmt"].as_str()?.to_owned(), arg: V::dec(&v["arg"])?, kind: "known-reproducer" }));
+		let Some(case) = parsed else {
+			return CaseOut::fail(k.replay.clone(), format!("reproducer of {} is not of the form {{\"fmt\": .., \"arg\": ..}}", k.id));
+		};
+		let py = ask_python(std::slice::from_ref(&case)).remove(0);
+		let got = ask_jrsonnet(std::slice::from_ref(&case)).remove(0);
+		let mut d = decide(&case, &py, &got);
+		apply_known(run, &mut d);
+		if let Verdict::Known(_) = &d.out.verdict {
+			// the reproducer counts for the finding it belongs to if that finding is among the explanations
+			if d.ids.contains(&k.id.as_str()) {
+				d.out.verdict = Verdict::Known(k.id.clone());
+			}
+			reproduced.lock().unwrap().extend(d.ids.iter().map(|s| s.to_string()));
+		}
+		d.out
+	});
+	let reproduced = reproduced.into_inner().unwrap();
+	for id in KNOWN_SEEN.lock().unwrap().iter() {
+		if !reproduced.iter().any(|r| r == id) {
+			run.report_known(id);
+		}
+	}
+}
+
+pub fn replay(run: &Run, _stage: &str, _tape: Option<&[u16]>, v: &Value) -> Option<CaseOut> {
+	let e = &v["extra"];
+	let fmt = e["fmt"].as_str()?.to_owned();
+	let arg = V::dec(&e["arg"])?;
+	let case = Case { fmt, arg, kind: "replay" };
+	let py = ask_python(std::slice::from_ref(&case)).remove(0);
+	let got = ask_jrsonnet(std::slice::from_ref(&case)).remove(0);
+	let mut d = decide(&case, &py, &got);
+	apply_known(run, &mut d);
+	if let (Some(sig), Verdict::Fail(why)) = (&d.sig, &d.out.verdict) {
+		d.out.verdict = Verdict::Fail(format!("[{sig}] {why}"));
+	}
+	Some(d.out)
 }
